@@ -40,26 +40,46 @@ Theorem C15_detect_is_spec : forall q f, spec_class f = lang_class (detect q f).
 Proof. exact detect_spec_faithful. Qed.
 Print Assumptions C15_detect_is_spec.
 
-(* 3. Main theorem, full strength: for EVERY quirk vector (faithful model), every command, every
-      configuration of the domain (every section valid: a value a linter rejects must end the run with exit
-      code 2 by property C05 and is outside C15), every file and every well-formed analysis oracle, the
-      command prints exactly the findings of its own linter's rules for the file's language. *)
+(* 3. Main theorem, full strength: for every quirk vector whose name-exemption flag is off (no hypothesis on the
+      shebang flag: the source confines the fallback), every command, every configuration of the domain (every
+      section valid: a value a linter rejects must end the run with exit code 2 by property C05), every file and
+      every well-formed analysis oracle, the command prints exactly the findings of its own linter's rules for the
+      file's language. *)
 Theorem C15_command_output_exact : forall q cmd c t f,
+  q_name_exemption_ext_case q = false ->
   is_command cmd = true -> atab_good t = true -> cfg_clean c = true ->
   run_cmd q cmd c t f = Ok (spec_out cmd t f).
-Proof. exact run_cmd_exact_faithful. Qed.
+Proof. exact run_cmd_exact_flag_off. Qed.
 Print Assumptions C15_command_output_exact.
 
-(* the same with the flag off: independent of the guard shape in the source (stays provable if the fix is reverted) *)
-Theorem C15_command_output_exact_flag_off : forall q cmd c t f,
-  q_shebang_any_ext q = false ->
+(* the same with both flags off: independent of the guard shape in the source (stays provable if fix 2639201 is reverted) *)
+Theorem C15_command_output_exact_flags_off : forall q cmd c t f,
+  q_shebang_any_ext q = false -> exemption_inert q f = true ->
   is_command cmd = true -> atab_good t = true -> cfg_clean c = true ->
   run_cmd q cmd c t f = Ok (spec_out cmd t f).
 Proof. exact run_cmd_exact. Qed.
-Print Assumptions C15_command_output_exact_flag_off.
+Print Assumptions C15_command_output_exact_flags_off.
+
+(* confinement of the listed defect q_name_exemption_ext_case (partial: the full statement is the theorem above):
+   under ANY quirk vector the faithful model meets the specification on every file whose extension is spelled
+   in lower case *)
+Theorem C15_actual_exact_for_lowercase_extensions_partial : forall q cmd c t f,
+  String.eqb (canon_name (f_name f)) (f_name f) = true ->
+  is_command cmd = true -> atab_good t = true -> cfg_clean c = true ->
+  run_cmd q cmd c t f = Ok (spec_out cmd t f).
+Proof. exact run_cmd_partial_lowercase. Qed.
+Print Assumptions C15_actual_exact_for_lowercase_extensions_partial.
+
+(* name-based exemptions (test files) are language-independent facts: evaluated on the name with its extension
+   lower-cased they give the same answer for every case variant of the extension, and so does every rule *)
+Theorem C15_exemptions_case_independent : forall r l stem v1 v2,
+  stem <> EmptyString -> ext_shape v1 = true -> ext_shape v2 = true -> lower v1 = lower v2 ->
+  exempt r l (canon_name (stem ++ v1)) = exempt r l (canon_name (stem ++ v2)).
+Proof. exact exempt_case_independent. Qed.
+Print Assumptions C15_exemptions_case_independent.
 
 Theorem C15_only_own_rules : forall q cmd c t f vs v,
-  is_command cmd = true -> atab_good t = true ->
+  exemption_inert q f = true -> is_command cmd = true -> atab_good t = true ->
   run_cmd q cmd c t f = Ok vs -> In v vs ->
   exists r, In r rule_table /\ owns cmd (r_pkg r) (fst v) = true.
 Proof. exact only_own_rules_faithful. Qed.
@@ -73,7 +93,7 @@ Proof. exact guard_within_docs. Qed.
 Print Assumptions C15_guard_within_documented_languages.
 
 Theorem C15_unrecognised_type_yields_no_source_analysis : forall q cmd c t f vs,
-  is_command cmd = true -> atab_good t = true ->
+  exemption_inert q f = true -> is_command cmd = true -> atab_good t = true ->
   spec_class f = LOther -> run_cmd q cmd c t f = Ok vs ->
   forall v, In v vs -> exists r, In r rule_table /\ lookup (r_pkg r) doc_langs = Some None.
 Proof. exact unrecognised_yields_nothing_faithful. Qed.
@@ -101,13 +121,14 @@ Theorem C15_rejected_section_aborts_out_of_domain : forall q cmd c t f r,
 Proof. exact rejected_section_aborts. Qed.
 Print Assumptions C15_rejected_section_aborts_out_of_domain.
 
-(* 6. Confinement (partial: the full statement is 3): the faithful model, under ANY quirk vector, meets the
-      specification whenever the file is not a non-extensionless, unmapped name starting with a python shebang. *)
-Theorem C15_actual_exact_outside_defects_partial : forall q cmd c t f,
-  is_command cmd = true -> atab_good t = true -> cfg_clean c = true -> shebang_benign f = true ->
-  run_cmd q cmd c t f = Ok (spec_out cmd t f).
-Proof. exact run_cmd_partial. Qed.
-Print Assumptions C15_actual_exact_outside_defects_partial.
+(* the two non-ASCII spellings CPython lower-cases to ASCII letters are covered by `lower` (hence by theorem 2):
+   ".\u212aS" (KELVIN SIGN) lower-cases to ".ks", ".\u0130" to ".i" + U+0307; other non-ASCII bytes are left alone *)
+Example C15_lower_special_code_points :
+  lower (bytes_to_string [46; 226; 132; 170; 83]) = ".ks"
+  /\ lower (bytes_to_string [46; 196; 176]) = bytes_to_string [46; 105; 204; 135]
+  /\ lower (bytes_to_string [46; 80; 195; 137]) = bytes_to_string [46; 112; 195; 137]
+  /\ lower ".TsX" = ".tsx".
+Proof. vm_compute. repeat split; reflexivity. Qed.
 
 (* non-vacuity: a python file in upper case, a TS oracle entry that must not leak, two commands *)
 Definition ex_tab : atab :=
